@@ -187,7 +187,7 @@ def build(tier, seed):
         hv2 = list(range(-30000, 0)) + list(range(5, 20000)) + list(range(100000, 115529))
         add(D.make_decl('i32', 'holes_65524', hv2, 'asc', 'mixed', 'default', rnd), D.full_config('table', 'table', 'table', 'table', True, split=1), kind='huge')
         hv3 = [v for v in range(0, 24000) if v % 4 != 3]
-        add(D.make_decl('u64', 'holes_6000_runs', hv3, 'asc', 'explicit', 'default', rnd), D.full_config('table', 'table', 'match', 'next_and_back', True, split=1), kind='huge')
+        add(D.make_decl('u64', 'holes_6000_runs', hv3, 'asc', 'explicit', 'default', rnd), D.full_config('table', 'table', 'table', 'next_and_back', True, split=1), kind='huge')
         # seeded random members of the same classes
         for _ in range(200):
             r = rnd.choice(D.REPRS)
